@@ -46,6 +46,8 @@ pub enum Call {
     /// wrong argument count for `sum` (target traps)
     SumWrongArity(u32),
     Unknown,
+    /// forward `collect_fees(receiver, token)` to a real gas service whose gas collector is the operators contract
+    CollectFees(u8),
 }
 
 #[derive(Clone, Copy, Debug, Serialize, Deserialize, PartialEq, Eq)]
@@ -95,6 +97,7 @@ fn call() -> impl Strategy<Value = Call> {
         2 => any::<u32>().prop_map(Call::Fail),
         1 => any::<u32>().prop_map(Call::SumWrongArity),
         1 => Just(Call::Unknown),
+        2 => (0u8..4).prop_map(Call::CollectFees),
     ]
 }
 
@@ -142,7 +145,7 @@ impl Property for C17 {
         "C17"
     }
     fn rule(&self) -> &'static str {
-        "proptest histories (<=25 quick / <=45 thorough ops) over 4 addresses: add / remove operator (duplicates and absent addresses included) authorised by the owner, a former owner, a stranger or nobody; ownership transfer; execute(caller, target function, args) with the caller's own authorisation, the owner's instead, another operator's instead, or none, against a probe target offering echo1, echo3, sum, noargs, store and a failing function, plus wrong-arity and unknown-function calls, with arguments of eight value kinds. Oracle: set model (membership swept over the pool after every step); execute succeeds iff the caller authorised and is a member at that moment and the target call succeeds; then the probe's call log grows by exactly one entry with the same function and arguments and the returned value equals the probe's; otherwise the call fails with the ledger snapshot identical. non-trivial = history contains an execute by a former member, or a successfully forwarded call with >= 2 arguments; distinct by Debug hash"
+        "proptest histories (<=25 quick / <=45 thorough ops) over 4 addresses: add / remove operator (duplicates and absent addresses included) authorised by the owner, a former owner, a stranger or nobody; ownership transfer; execute(caller, target function, args) with the caller's own authorisation, the owner's instead, another operator's instead, or none, against a probe target offering echo1, echo3, sum, noargs, store and a failing function, plus wrong-arity and unknown-function calls, and collect_fees forwarded to a real gas service whose collector is the operators contract, with arguments of eight value kinds. Oracle: set model (membership swept over the pool after every step); execute succeeds iff the caller authorised and is a member at that moment and the target call succeeds; then the probe's call log grows by exactly one entry with the same function and arguments and the returned value equals the probe's; otherwise the call fails with the ledger snapshot identical. non-trivial = history contains an execute by a former member, or a successfully forwarded call with >= 2 arguments; distinct by Debug hash"
     }
     fn cases(&self, tier: Tier) -> u64 {
         tier.pick(4000, 60000)
@@ -166,6 +169,15 @@ impl Property for C17 {
         let ops = AxelarOperatorsClient::new(&env, &ops_id);
         let target_id = env.register(Target, ());
         let target = TargetClient::new(&env, &target_id);
+        // a real gas service whose gas collector is the operators contract (a usual deployment)
+        let gas_owner = Address::generate(&env);
+        let gas_id = env.register(axelar_gas_service::AxelarGasService, (&gas_owner, &ops_id));
+        let fee_asset = env.register_stellar_asset_contract_v2(Address::generate(&env)).address();
+        env.mock_all_auths();
+        soroban_sdk::token::StellarAssetClient::new(&env, &fee_asset).mint(&gas_id, &1000);
+        let fee_token = soroban_sdk::token::TokenClient::new(&env, &fee_asset);
+        let fee_receiver = Address::generate(&env);
+        let mut fees_out: i128 = 0;
         let mut member = [false; NA];
         let mut was_member = [false; NA];
         let mut owner = owner0.clone();
@@ -237,7 +249,12 @@ impl Property for C17 {
                         Call::Fail(a) => ("fail", vec![a.into_val(&env)]),
                         Call::SumWrongArity(a) => ("sum", vec![a.into_val(&env)]),
                         Call::Unknown => ("no_such_function", vec![]),
+                        Call::CollectFees(a) => (
+                            "collect_fees",
+                            vec![fee_receiver.clone().into_val(&env), axelar_soroban_std::types::Token { address: fee_asset.clone(), amount: *a as i128 }.into_val(&env)],
+                        ),
                     };
+                    let callee = if matches!(call, Call::CollectFees(_)) { gas_id.clone() } else { target_id.clone() };
                     let mut sargs: SVec<Val> = SVec::new(&env);
                     for a in &args {
                         sargs.push_back(*a);
@@ -254,7 +271,7 @@ impl Property for C17 {
                             let inv = MockAuthInvoke {
                                 contract: &ops_id,
                                 fn_name: "execute",
-                                args: (pool[ci].clone(), target_id.clone(), func.clone(), sargs.clone()).into_val(&env),
+                                args: (pool[ci].clone(), callee.clone(), func.clone(), sargs.clone()).into_val(&env),
                                 sub_invokes: &[],
                             };
                             env.mock_auths(&[MockAuth { address: s, invoke: &inv }]);
@@ -262,7 +279,7 @@ impl Property for C17 {
                         None => env.mock_auths(&[]),
                     }
                     let authorised = signer.as_ref() == Some(&pool[ci]);
-                    let target_ok = !matches!(call, Call::Fail(_) | Call::SumWrongArity(_) | Call::Unknown);
+                    let target_ok = !matches!(call, Call::Fail(_) | Call::SumWrongArity(_) | Call::Unknown | Call::CollectFees(0));
                     let expect_ok = authorised && member[ci] && target_ok;
                     if was_member[ci] && !member[ci] {
                         nontrivial = true;
@@ -273,12 +290,23 @@ impl Property for C17 {
                     }
                     let snap0 = snapshot(&env);
                     let ev0 = events_len(&env);
-                    let r = ops.try_execute(&pool[ci], &target_id, &func, &sargs);
+                    let r = ops.try_execute(&pool[ci], &callee, &func, &sargs);
                     let ok = matches!(r, Ok(Ok(_)));
                     if expect_ok {
                         cx.count("must_succeed");
                         ensure_p!(ok, "step {} {:?}: current operator's authorised call was not forwarded: {:?}", step, op, r);
                         let ret: Val = r.unwrap().unwrap();
+                        if let Call::CollectFees(a) = call {
+                            // forwarded to the real gas service: the operators contract is its collector and the direct caller
+                            fees_out += *a as i128;
+                            cx.label("forwarded_to_gas_service_as_its_collector");
+                            ensure_p!(fee_token.balance(&fee_receiver) == fees_out && fee_token.balance(&gas_id) == 1000 - fees_out, "step {}: forwarded collect_fees did not move exactly the requested amount", step);
+                            ensure_p!(sc(&env, &ret) == ScVal::Void, "step {}: unexpected return value from collect_fees", step);
+                            for i in 0..NA {
+                                ensure_p!(ops.is_operator(&pool[i]) == member[i], "membership changed by a forwarded call");
+                            }
+                            continue;
+                        }
                         let want_ret: ScVal = match call {
                             Call::Echo1(_) => sc(&env, &args[0]),
                             Call::Echo3(..) => sc(&env, &args[1]),
